@@ -1234,7 +1234,28 @@ def g_case(rng, maxops=7, p_fresh=0.03):
     nenv = rng.choice([1, 1, 2, 2, 3])
     env = []
     main_kind = rng.choice(["schema", "schema", "schema", "dataclass", "func", "func"])
-    for k in range(nenv):
+    chain = rng.random() < 0.06
+    if chain:
+        # an inheritance chain declared up front: Top has a field whose type is a forward reference to a class declared
+        # after the whole chain, Mid(Top) and Sub(Mid) add a field each or nothing.  Which class of the chain is parsed
+        # first varies: resolving the reference is process state (per-parser forward_refs), the outcome must not depend on it
+        nenv, main_kind = 4, rng.choice(["schema", "schema", "dataclass"])
+
+        def simple(nm):
+            ty = fix_set_of(g_type(rng, 1, 0, 0))
+            return {"name": nm, "ty": ty, "default": g_default(rng, ty, tagc) or {"how": "val", "val": 0, "plain": True}}
+        ref = rng.choice([{"opt": {"data": 3}}, {"opt": {"data": 3}}, {"seq": "list", "of": {"data": 3}},
+                          {"opt": {"seq": "list", "of": {"data": 3}}}])
+        top = [{"name": "a", "ty": ref, "default": {"how": "val", "plain": True,
+                                                    "val": None if "opt" in ref else node("list", [], [])}}]
+        if rng.random() < 0.5:
+            top.append(simple("b"))
+        env = [{"kind": main_kind, "dfs": rng.choice([None, None, True, False]), "fields": top},
+               {"kind": main_kind, "dfs": None, "base": 0, "fields": [simple("e")] if rng.random() < 0.6 else []},
+               {"kind": main_kind, "dfs": None, "base": 1, "fields": [simple("g")] if rng.random() < 0.6 else []},
+               {"kind": rng.choice(["schema", "dataclass"]), "dfs": None, "fields": [
+                   {"name": "x", "ty": "int", "default": rng.choice([None, {"how": "val", "val": 0, "plain": True}])}]}]
+    for k in range(0 if chain else nenv):
         kind = main_kind if k == nenv - 1 else rng.choice(["schema", "schema", "dataclass"])
         names_k = CAP_NAMES if (kind != "func" and rng.random() < 0.3) else NAMES
         nf = rng.randint(1, 4)
@@ -1327,6 +1348,8 @@ def g_case(rng, maxops=7, p_fresh=0.03):
             continue
         if last or r < 0.55 or not results:
             k = nenv - 1 if rng.random() < 0.8 else rng.randrange(nenv)
+            if chain:
+                k = rng.choice([2, 2, 2, 1, 1, 0, 3])
             if declared_late and rng.random() < 0.35:
                 k = nenv
             if env[k]["kind"] == "func" and k != nenv - 1:
@@ -1648,8 +1671,19 @@ class C19(Check):
             if isinstance(io, dict):
                 st["replayed"] = st.get("replayed", 0) + io.get("replayed", 0)
             for op, o in zip(c["ops"], (io or {}).get("outs", [])):
-                k = f"{op['op']}:{o}"
+                k = op["op"]
+                if k == "mutate":
+                    k += "." + op.get("act", "") + (".object" if isinstance(op.get("val"), dict) else "")
+                k = f"{k}:{o}"
                 st["ops"][k] = st["ops"].get(k, 0) + 1
+            sh = st.setdefault("shapes", {})
+            for name, yes in (("deferred default field", any(f.get("defer") for d in c["env"] for f in d["fields"])),
+                              ("data-class instance default", '"instof"' in json.dumps(c["env"])),
+                              ("inheritance chain with forward reference", len(c["env"]) > 2 and c["env"][2].get("base") == 1),
+                              ("declaration during the history", any(d.get("late") for d in c["env"])),
+                              ("caller stored an object of one root into another", bool(isinstance(io, dict) and io.get("caller_put")))):
+                if yes:
+                    sh[name] = sh.get(name, 0) + 1
             for d in c["env"]:
                 for f in d["fields"]:
                     df = f.get("default")
@@ -1678,6 +1712,7 @@ class C19(Check):
         if st:
             ev["coverage"]["operations_by_outcome"] = dict(sorted(st["ops"].items()))
             ev["coverage"]["declared_default_kinds"] = dict(sorted(st["default_kinds"].items()))
+            ev["coverage"]["program_shapes"] = dict(sorted(st.get("shapes", {}).items()))
             ev["coverage"]["outside_modelled_fragment"] = {"cases": st["unmodelled_cases"], "of": st["cases"],
                                                            "reasons": st["unmodelled"]}
             ev["coverage"]["fresh_interpreter_replays"] = st["fresh_interpreter_replays"]
